@@ -111,9 +111,13 @@ step1:
 	// Use parse256(I_L) as secret key
 	key, err := curve.NewPrivateKey(left)
 	// If the secret key is invalid, set S ← I and recompute I
-	if err != nil {
+	if errors.Is(err, ErrInvalidKey) {
 		seed = inter
 		goto step1
+	}
+	// any other error is permanent and returned to the caller
+	if err != nil {
+		return nil, err
 	}
 
 	// use I_R as chain code
